@@ -514,7 +514,8 @@ func checkC40(r *mon.Run) {
 		}
 	}
 	c40ConcurrentPhase(r, local)
-	need := []string{"concurrent_group", "concurrent_group_overlapped", "concurrent_served_own_key"}
+	c40ChainPhase(r, local)
+	need := []string{"concurrent_group", "concurrent_group_overlapped", "concurrent_served_own_key", "level1_list_served", "level1_list_refused"}
 	for _, rpc := range rpcs {
 		need = append(need, rpc+"_served", rpc+"_refused")
 	}
